@@ -552,7 +552,8 @@ def is_char_boundary(run,bl,i):
     if isinstance(x,int): return not (0x80<=x<=0xbf)
     return not run.branch_bool(Bool(z3.And(z3.UGE(x,0x80),z3.ULE(x,0xbf))),'charboundary')
 def m_replace(e,run,a,f):
-    s=deref(a[0]); pat=deref(a[1]).b; to=deref(a[2]).b
+    s=deref(a[0]); pat=deref(a[1]); to=deref(a[2]).b
+    pat=list(chr(pat.v).encode()) if isinstance(pat,Char) else pat.b
     if s.taint: return StringO(s.b,True)
     out=[]; i=0; b=s.b; n=len(b); m=len(pat)
     if m==0: raise Unsupported('replace empty pattern')
@@ -977,32 +978,35 @@ def parse_class(s):
         else: out.append((s[i],s[i])); i+=1
     return out
 def glob_match(toks,s):
-    """glob::Pattern::matches with default MatchOptions (case sensitive, `*`/`?` match `/`, leading dot ok)"""
-    def rec(ti,si):
-        if ti==len(toks): return si==len(s)
-        t=toks[ti]
-        if t[0] in('anyseq','anyrec'):
-            if t[0]=='anyrec':
-                # matches zero or more whole components; must be at component start
-                if si>0 and s[si-1]!='/' : return False
-                if rec(ti+1,si): return True
-                k=si
-                while k<len(s):
-                    if s[k]=='/':
-                        if rec(ti+1,k+1): return True
-                    k+=1
-                return False
-            for k in range(si,len(s)+1):
-                if rec(ti+1,k): return True
-            return False
-        if si>=len(s): return False
-        c=s[si]
-        if t[0]=='any1': return rec(ti+1,si+1)
-        if t[0]=='ch': return c==t[1] and rec(ti+1,si+1)
-        if t[0]=='in': return any(lo<=c<=hi for lo,hi in t[1]) and rec(ti+1,si+1)
-        if t[0]=='notin': return (not any(lo<=c<=hi for lo,hi in t[1])) and rec(ti+1,si+1)
-        return False
-    return rec(0,0)
+    """glob::Pattern::matches with default MatchOptions (case sensitive, `*`/`?` match `/`, leading dot ok):
+    a transcription of glob 0.3 `Pattern::matches_from` (recursion only at wildcard tokens, so subjects may be long).
+    Returns True for Match; SubPatternDoesntMatch / EntirePatternDoesntMatch are both False at the top."""
+    MATCH,SUB,ENTIRE=0,1,2
+    nt=len(toks); n=len(s)
+    def mf(follows_sep,si,ti0):
+        for ti in range(ti0,nt):
+            t=toks[ti]
+            if t[0] in ('anyseq','anyrec'):
+                r=mf(follows_sep,si,ti+1)
+                if r!=SUB: return r
+                while si<n:
+                    c=s[si]; si+=1
+                    follows_sep=(c=='/')
+                    if t[0]=='anyrec' and not follows_sep: continue
+                    r=mf(follows_sep,si,ti+1)
+                    if r!=SUB: return r
+            else:
+                if si>=n: return ENTIRE
+                c=s[si]; si+=1
+                if t[0]=='any1': ok_=True
+                elif t[0]=='ch': ok_=(c==t[1])
+                elif t[0]=='in': ok_=any(lo<=c<=hi for lo,hi in t[1])
+                elif t[0]=='notin': ok_=not any(lo<=c<=hi for lo,hi in t[1])
+                else: ok_=False
+                if not ok_: return SUB
+                follows_sep=(c=='/')
+        return MATCH if si>=n else SUB
+    return mf(True,0,0)==MATCH
 def m_glob_new(e,run,a,f):
     p=need_conc(byte_list(a[0]),'glob pattern').decode()
     t=glob_compile(p)
@@ -2119,3 +2123,40 @@ def register_misc12(E):
 _old_register_all21=register_all
 def register_all(E):
     _old_register_all21(E); register_misc12(E)
+
+# ---- [u8]::trim_ascii_start / trim_ascii_end / trim_ascii (ASCII whitespace: space, \t, \n, \x0c, \r), str::encode_utf16, fs::Metadata::len
+def _is_ascii_ws(run,x,tag):
+    if isinstance(x,int): return x in (0x20,0x09,0x0a,0x0c,0x0d)
+    return run.branch_bool(Bool(z3.Or(x==0x20,x==0x09,x==0x0a,x==0x0c,x==0x0d)),tag)
+def m_trim_ascii(kind):
+    def m(e,run,a,f):
+        src=deref(a[0]); bl=list(byte_list(src))
+        if kind in ('start','both'):
+            while bl and _is_ascii_ws(run,bl[0],'trim_ascii'): bl=bl[1:]
+        if kind in ('end','both'):
+            while bl and _is_ascii_ws(run,bl[-1],'trim_ascii'): bl=bl[:-1]
+        if isinstance(src,(Str,StringO)) and getattr(src,'is_str',True) and 'impl str' in f: return Ref(Cell(Str(bl,True)))
+        return Ref(Cell(Str(bl,False)))
+    return m
+def m_encode_utf16(e,run,a,f):
+    bl=byte_list(a[0]); c=conc_bytes(bl)
+    if c is not None:
+        u=c.decode().encode('utf-16-be'); return Iter([Int(16,False,(u[i]<<8)|u[i+1]) for i in range(0,len(u),2)])
+    out=[]
+    for x in bl:
+        if isinstance(x,int):
+            if x>=0x80: raise Unsupported('encode_utf16 of a partly symbolic non-ASCII string')
+            out.append(Int(16,False,x)); continue
+        ax=allowed(x)
+        if ax is None or not all(v<0x80 for v in ax):
+            if run.branch_bool(Bool(z3.UGE(x,0x80)),'utf16.nonascii'): raise Unsupported('encode_utf16 of a symbolic non-ASCII byte')
+        out.append(Int(16,False,z3.ZeroExt(8,x)))
+    return Iter(out)
+def register_misc13(E):
+    M=E.model
+    M(r'<impl \[u8\]>::trim_ascii_start$',m_trim_ascii('start')); M(r'<impl \[u8\]>::trim_ascii_end$',m_trim_ascii('end')); M(r'<impl \[u8\]>::trim_ascii$',m_trim_ascii('both'))
+    M(r'<impl str>::trim_ascii_start$',m_trim_ascii('start')); M(r'<impl str>::trim_ascii_end$',m_trim_ascii('end')); M(r'<impl str>::trim_ascii$',m_trim_ascii('both'))
+    M(r'<impl str>::encode_utf16$',m_encode_utf16)
+_old_register_all22=register_all
+def register_all(E):
+    _old_register_all22(E); register_misc13(E)
